@@ -362,7 +362,9 @@ func (e *env) kzgKnown(k kz, P any, N int, nc string, verify func(prev, next any
 	op := e.L + "/kzg/MpcSetup.Verify"
 	x := e.other(one)
 	descX := func(x *big.Int, what string) func() string {
-		return func() string { return fmt.Sprintf("N=%d contribution rebuilt with known x=%s: %s", N, x.Text(16), what) }
+		return func() string {
+			return fmt.Sprintf("N=%d contribution rebuilt with known x=%s: %s", N, x.Text(16), what)
+		}
 	}
 	pw := func(x *big.Int) func(i int) *big.Int { return func(i int) *big.Int { return e.pow(x, i) } }
 	var K any
